@@ -421,8 +421,9 @@ fn table_truncations(ctx: &mut Ctx, r: &mut Runner, fonts: &[CorpusFont]) {
 /// G4: boundary values at every 2/4-byte position of the first 256 bytes of
 /// every table and of the file header / directory (sampled to fit the budget).
 fn boundary_sweeps(ctx: &mut Ctx, r: &mut Runner, fonts: &[CorpusFont]) {
-    let keep_small = ctx.budget(24, 3);
-    let keep_big = ctx.budget(160, 16);
+    // keep 1 in N enumerated edits: N shrinks as the budget scale grows
+    let keep_small = ((ctx.tier.pick(24.0, 3.0) / ctx.scale.max(0.01)).ceil() as usize).max(1);
+    let keep_big = ((ctx.tier.pick(160.0, 16.0) / ctx.scale.max(0.01)).ceil() as usize).max(1);
     for f in fonts {
         let id = f.id();
         let mut buf = f.data.to_vec();
